@@ -33,11 +33,16 @@ def budgets(tier):
 
 @st.composite
 def _case(draw):
-    sc = draw(retro.retro_screen())
-    names = retro.GENERATORS + retro.SMOOTHERS
-    if not sc["ssp"]:
-        names = [n for n in names if n not in retro.NEEDS_SINGLE_SAMPLE_PLATES] + ["MergeMin"]
-    ops = [draw(retro.operator(names)) for _ in range(3)]
+    if draw(st.integers(0, 3)) == 0:
+        # a layout on which the pairwise generator returns (it raises on most random layouts), incl. vehicle-only rows
+        sc = draw(retro.pairwise_screen())
+        ops = [{"name": "Pairwise", "subset_size": draw(st.sampled_from([1, 1, 2])), "anchor_size": draw(st.sampled_from([0, 0, 1, 2]))}, draw(retro.operator(["SampleSegregating", "PlatePermutation", "FixedSize", "OptimalSize"]))]
+    else:
+        sc = draw(retro.retro_screen())
+        names = retro.GENERATORS + retro.SMOOTHERS
+        if not sc["ssp"]:
+            names = [n for n in names if n not in retro.NEEDS_SINGLE_SAMPLE_PLATES] + ["MergeMin"]
+        ops = [draw(retro.operator(names)) for _ in range(3)]
     return {
         "screen": sc,
         "ops": ops,
